@@ -15,6 +15,14 @@
 //   m <hexmask> <fast>     offer = universe names with bit set, in universe order; fast = ! (no <fast/> feature) | hexmask
 //   l <names> <fastnames>  explicit lists (order, duplicates); - = empty list, % = empty name, ! = no <fast/> feature
 // observation:  sent <mechanism> <fast 0|1>  |  mismatch <offered-but-disabled names|->  |  error <text>
+//
+// Client level (a real QXmppClient/QXmppOutgoingClient over a fake transport, fed <stream:features/>):
+//   resetc <useSasl2><useSASL><useNonSASL>:<useFast>:<userAgent> <disabled> <preferred> <creds> <universe>   -> ok
+//   c <mask> <legacy 0|1> <bind 0|1> <sasl2mask|!> <fastmask|!>    features: <mechanisms/> = names of mask (0 = element absent),
+//        <auth xmlns='http://jabber.org/features/iq-auth'/>, <bind/>, SASL 2 <authentication/> with its own mechanisms and <fast/>
+//   k <names> <legacy> <bind> <names2|!> <fastnames|!>             same with explicit lists
+// observation:  <action> <disconnected 0|1>   action = sasl <mech> | sasl2 <mech> <fast> | mismatch <names|-> | legacy | bind |
+//               session | nothing | several joined by + (never expected)
 #include "common.h"
 
 #include "QXmppConfiguration.h"
@@ -22,9 +30,14 @@
 #include "QXmppSaslManager_p.h"
 #include "QXmppSasl_p.h"
 #include "XmppSocket.h"
+#include "QXmppClient.h"
+#include "QXmppClient_p.h"
+#include "QXmppError.h"
+#include "QXmppOutgoingClient.h"
 
 #include <QCoreApplication>
 #include <QDomDocument>
+#include <QSslSocket>
 #include <QUuid>
 #include <algorithm>
 #include <optional>
@@ -140,6 +153,20 @@ struct Obs {
 
 static QXmppLoggable *g_log;
 
+// the mismatch text lists the offered-but-disabled names; false = text of an unexpected shape
+static bool parseMismatchText(QString t, SV &disabledOffered)
+{
+    const QString head = QStringLiteral("No supported SASL mechanism available");
+    if (!t.startsWith(head)) return false;
+    t = t.mid(head.size());
+    if (t.isEmpty()) return true;
+    const QString pre = QStringLiteral(" ("), post = QStringLiteral(" is disabled)");
+    if (!t.startsWith(pre) || !t.endsWith(post)) return false;
+    t = t.mid(pre.size(), t.size() - pre.size() - post.size());
+    for (auto &p : t.split(QStringLiteral(", "))) disabledOffered.push_back(p.toStdString());
+    return true;
+}
+
 template<typename Result>
 static void readError(const Result &r, Obs &o)
 {
@@ -147,15 +174,7 @@ static void readError(const Result &r, Obs &o)
     if (auto *e = std::get_if<Err>(&r)) {
         if (e->second.type == QXmpp::AuthenticationError::MechanismMismatch) {
             o.mismatch = true;
-            QString t = e->first;
-            const QString head = QStringLiteral("No supported SASL mechanism available");
-            if (!t.startsWith(head)) { o.error = "mismatch-with-unexpected-text"; return; }
-            t = t.mid(head.size());
-            if (t.isEmpty()) return;
-            const QString pre = QStringLiteral(" ("), post = QStringLiteral(" is disabled)");
-            if (!t.startsWith(pre) || !t.endsWith(post)) { o.error = "mismatch-with-unexpected-text"; return; }
-            t = t.mid(pre.size(), t.size() - pre.size() - post.size());
-            for (auto &p : t.split(QStringLiteral(", "))) o.disabledOffered.push_back(p.toStdString());
+            if (!parseMismatchText(e->first, o.disabledOffered)) o.error = "mismatch-with-unexpected-text";
         } else {
             o.error = "type" + std::to_string(int(e->second.type));
         }
@@ -532,6 +551,324 @@ static void corpus()
     }
 }
 
+
+// ========================================================================================== client level
+// The managers above are only reached through QXmppOutgoingClient::handleStreamFeatures(). This part feeds stream features
+// to a real QXmppClient whose XmppSocket writes into a fake QSslSocket (state "connected", writes captured, close recorded),
+// and observes what the client does: which authentication element it sends (SASL <auth/>, SASL 2 <authenticate/>, XEP-0078
+// jabber:iq:auth, resource bind), whether it opens a session, which error it reports and whether it disconnects.
+class FakeSock : public QSslSocket
+{
+public:
+    std::vector<QByteArray> written;
+    bool closed = false;
+    void up() { setOpenMode(QIODevice::ReadWrite); setSocketState(QAbstractSocket::ConnectedState); }
+    void disconnectFromHost() override { closed = true; setSocketState(QAbstractSocket::UnconnectedState); }
+
+protected:
+    qint64 writeData(const char *d, qint64 n) override { written.emplace_back(d, int(n)); return n; }
+};
+
+// the library declares `friend class TestClient;` in QXmppClient and QXmppOutgoingClient
+class TestClient
+{
+public:
+    static QXmppOutgoingClient *stream(QXmppClient *c) { return c->d->stream; }
+    static void handleStart(QXmppOutgoingClient *c) { c->handleStart(); }
+    static void handleStream(QXmppOutgoingClient *c, const QDomElement &e) { c->handleStream(e); }
+    static void received(QXmppOutgoingClient *c, const QDomElement &e) { c->handlePacketReceived(e); }
+};
+
+struct CConf {
+    Conf conf;                 // disabled, preferred, creds, useFast, ua, universe (conf.sasl2 unused)
+    bool useSasl2 = true, useSasl = true, useNonSasl = true;
+};
+struct Feat {
+    SV mechanisms;             // <mechanisms xmlns=sasl/>, empty = element absent
+    bool legacy = false, bind = false;
+    std::optional<SV> sasl2;   // SASL 2 <authentication/> mechanisms
+    std::optional<SV> fast;    // <fast/> inside it
+};
+struct CObs {
+    SV actions; bool closed = false;
+    bool saslAuth = false, sasl2Auth = false, legacy = false, bind = false, session = false, mismatch = false, otherError = false;
+    S mech; bool fast = false; SV disabledOffered;
+    S str() const
+    {
+        S a;
+        for (size_t i = 0; i < actions.size(); i++) { if (i) a += "+"; a += actions[i]; }
+        if (a.empty()) a = "nothing";
+        return a + " " + (closed ? "1" : "0");
+    }
+};
+
+static S cconfLine(const CConf &c)
+{
+    S flags = S(c.useSasl2 ? "1" : "0") + (c.useSasl ? "1" : "0") + (c.useNonSasl ? "1" : "0") + ":" + (c.conf.useFast ? "1" : "0") + ":" + (c.conf.ua ? "1" : "0");
+    return "resetc " + flags + " " + (c.conf.defaultDisabled ? S("default") : encList(c.conf.disabled)) + " " +
+        (c.conf.preferred.empty() ? S("-") : c.conf.preferred) + " " + credsStr(c.conf.creds) + " " + encList(c.conf.universe);
+}
+
+static QByteArray featuresXml(const Feat &f)
+{
+    QByteArray x = "<stream:features xmlns:stream='http://etherx.jabber.org/streams'>";
+    auto mechs = [](const SV &l) { QByteArray b; for (auto &n : l) b += "<mechanism>" + QByteArray::fromStdString(n) + "</mechanism>"; return b; };
+    if (!f.mechanisms.empty()) x += "<mechanisms xmlns='urn:ietf:params:xml:ns:xmpp-sasl'>" + mechs(f.mechanisms) + "</mechanisms>";
+    if (f.legacy) x += "<auth xmlns='http://jabber.org/features/iq-auth'/>";
+    if (f.bind) x += "<bind xmlns='urn:ietf:params:xml:ns:xmpp-bind'/>";
+    if (f.sasl2) {
+        x += "<authentication xmlns='urn:xmpp:sasl:2'>" + mechs(*f.sasl2);
+        if (f.fast) x += "<inline><fast xmlns='urn:xmpp:fast:0'>" + mechs(*f.fast) + "</fast></inline>";
+        x += "</authentication>";
+    }
+    return x + "</stream:features>";
+}
+
+static CObs runClient(const CConf &cc, const Feat &f)
+{
+    CObs o;
+    QXmppClient client(QXmppClient::NoExtensions);
+    QXmppOutgoingClient *c = TestClient::stream(&client);
+    auto *fs = new FakeSock;
+    fs->setParent(c);
+    fs->up();
+    c->xmppSocket().setSocket(fs);
+
+    QXmppConfiguration cfg = makeConfig(cc.conf);
+    cfg.setJid(QStringLiteral("user@example.org"));
+    cfg.setResource(QStringLiteral("r"));
+    cfg.setAutoReconnectionEnabled(false);
+    cfg.setStreamSecurityMode(QXmppConfiguration::TLSDisabled);
+    cfg.setUseSasl2Authentication(cc.useSasl2);
+    cfg.setUseSASLAuthentication(cc.useSasl);
+    cfg.setUseNonSASLAuthentication(cc.useNonSasl);
+    c->configuration() = cfg;
+
+    QObject ctx;
+    QObject::connect(&client, &QXmppClient::errorOccurred, &ctx, [&](const QXmppError &e) {
+        auto auth = e.value<QXmpp::AuthenticationError>();
+        if (auth && auth->type == QXmpp::AuthenticationError::MechanismMismatch) {
+            o.mismatch = true;
+            if (parseMismatchText(e.description, o.disabledOffered)) o.actions.push_back("mismatch " + encList(o.disabledOffered));
+            else o.actions.push_back("mismatch-with-unexpected-text");
+        } else {
+            o.otherError = true;
+            o.actions.push_back("error");
+        }
+    });
+    QObject::connect(c, &QXmppOutgoingClient::connected, &ctx, [&](const SessionBegin &) { o.session = true; o.actions.push_back("session"); });
+
+    TestClient::handleStart(c);
+    QDomDocument sdoc;
+    sdoc.setContent(QByteArray("<stream:stream xmlns='jabber:client' xmlns:stream='http://etherx.jabber.org/streams' id='s1' from='example.org' version='1.0'/>"), true);
+    TestClient::handleStream(c, sdoc.documentElement());
+    fs->written.clear();
+    size_t actionsBefore = o.actions.size();
+    (void)actionsBefore;
+
+    QDomDocument fdoc;
+    if (!fdoc.setContent(featuresXml(f), true)) { o.actions.push_back("harness-bad-features-xml"); return o; }
+    // what the client writes is looked at in order, interleaved with the signals above by construction (all synchronous)
+    TestClient::received(c, fdoc.documentElement());
+
+    for (auto &w : fs->written) {
+        if (w == "</stream:stream>") continue;   // part of disconnecting
+        QDomDocument d;
+        if (!d.setContent(w, true)) { o.actions.push_back("unparsable"); continue; }
+        auto el = d.documentElement();
+        const QString ns = el.namespaceURI(), tag = el.tagName();
+        if (tag == QStringLiteral("auth") && ns == QStringLiteral("urn:ietf:params:xml:ns:xmpp-sasl")) {
+            o.saslAuth = true; o.mech = el.attribute(QStringLiteral("mechanism")).toStdString();
+            o.actions.push_back("sasl " + encName(o.mech));
+        } else if (tag == QStringLiteral("authenticate") && ns == QStringLiteral("urn:xmpp:sasl:2")) {
+            o.sasl2Auth = true; o.mech = el.attribute(QStringLiteral("mechanism")).toStdString();
+            for (auto ch = el.firstChildElement(); !ch.isNull(); ch = ch.nextSiblingElement())
+                if (ch.tagName() == QStringLiteral("fast") && ch.namespaceURI() == QStringLiteral("urn:xmpp:fast:0")) o.fast = true;
+            o.actions.push_back("sasl2 " + encName(o.mech) + " " + (o.fast ? "1" : "0"));
+        } else if (tag == QStringLiteral("iq")) {
+            auto ch = el.firstChildElement();
+            if (ch.tagName() == QStringLiteral("query") && ch.namespaceURI() == QStringLiteral("jabber:iq:auth")) { o.legacy = true; o.actions.push_back("legacy"); }
+            else if (ch.tagName() == QStringLiteral("bind") && ch.namespaceURI() == QStringLiteral("urn:ietf:params:xml:ns:xmpp-bind")) { o.bind = true; o.actions.push_back("bind"); }
+            else o.actions.push_back("iq:" + ch.tagName().toStdString());
+        } else if (tag == QStringLiteral("presence")) {
+            // initial presence of an opened session
+        } else {
+            o.actions.push_back("other:" + tag.toStdString());
+        }
+    }
+    o.closed = fs->closed;
+    // canonical order: what was sent / reported is a set here (signals and writes were collected separately)
+    std::sort(o.actions.begin(), o.actions.end());
+    return o;
+}
+
+static void cfail(const S &key, const CConf &c, const S &op, const CObs &o)
+{
+    if (failPrinted++ < 40) oracleFail(key, cconfLine(c) + " ; " + op + " ; observed: " + o.str());
+    stat("oracle_fail:" + key);
+}
+
+// The property at client level, independent of the model. The client negotiates SASL 2 when the server offers it and the user
+// enabled it, else SASL when the server offers a non-empty <mechanisms/> and the user enabled it. Whenever it negotiates:
+// nothing permitted (offered, enabled, implemented, usable with NON-EMPTY secrets)  =>  mechanism mismatch reported, disconnect,
+// and NO authentication element of any kind (no <auth/>, no <authenticate/>, no jabber:iq:auth, no bind, no session);
+// something permitted => exactly that SASL element with a mechanism that passes the manager-level oracle, nothing else.
+// SASL disabled by the user => no SASL <auth/> is ever sent.
+static bool clientOracle(const CConf &cc, const Feat &f, const CObs &o, const S &op)
+{
+    const Conf &c = cc.conf;
+    const bool neg2 = f.sasl2.has_value() && cc.useSasl2;
+    const bool neg1 = !neg2 && !f.mechanisms.empty() && cc.useSasl;
+    if (o.otherError) { cfail("C05:client:unexpected-error", cc, op, o); return false; }
+    if (!neg2 && !neg1) {
+        if (o.saslAuth || o.sasl2Auth) { cfail("C05:client:sasl-used-although-not-negotiable", cc, op, o); return false; }
+        if (o.mismatch) { cfail("C05:client:mismatch-without-negotiation", cc, op, o); return false; }
+        return true;
+    }
+    const SV &disabled = c.defaultDisabled ? DEFAULT_DISABLED : c.disabled;
+    const SV &base = neg2 ? *f.sasl2 : f.mechanisms;
+    const bool fastOn = neg2 && c.useFast && c.ua && f.fast.has_value();
+    SV all = base;
+    if (fastOn) all.insert(all.end(), f.fast->begin(), f.fast->end());
+    bool anyPermitted = false;
+    for (auto &n : all) if (!has(disabled, n) && strength(n) != -2 && usable(n, c.creds)) anyPermitted = true;
+    if (!anyPermitted) {
+        if (o.saslAuth || o.sasl2Auth || o.legacy || o.bind || o.session) { cfail("C05:client:auth-sent-although-nothing-permitted", cc, op, o); return false; }
+        if (!o.mismatch) { cfail("C05:client:no-mismatch-report", cc, op, o); return false; }
+        if (!o.closed) { cfail("C05:client:not-disconnected-after-mismatch", cc, op, o); return false; }
+        if (o.actions.size() != 1) { cfail("C05:client:extra-action-with-mismatch", cc, op, o); return false; }
+        return true;
+    }
+    if (o.mismatch) { cfail("C05:client:mismatch-although-permitted", cc, op, o); return false; }
+    if (o.legacy || o.bind || o.session) { cfail("C05:client:fallback-although-sasl-possible", cc, op, o); return false; }
+    if ((neg2 && (!o.sasl2Auth || o.saslAuth)) || (neg1 && (!o.saslAuth || o.sasl2Auth)) || o.actions.size() != 1) { cfail("C05:client:wrong-element", cc, op, o); return false; }
+    if (o.closed) { cfail("C05:client:disconnected-while-authenticating", cc, op, o); return false; }
+    // the mechanism itself: same judgement as at manager level
+    Conf mc = c; mc.sasl2 = neg2;
+    Obs mo; mo.sent = true; mo.mech = o.mech; mo.fast = o.fast; mo.nSent = 1; mo.pending = true;
+    return oracle(mc, base, neg2 ? f.fast : std::nullopt, mo, "client-level " + cconfLine(cc) + " ; " + op);
+}
+
+struct CGroup {
+    CConf cc;
+    explicit CGroup(const CConf &c) : cc(c) { corr(cconfLine(c), "ok"); stat("client_configs"); }
+    SV pick(unsigned mask) const { SV v; for (size_t i = 0; i < cc.conf.universe.size(); i++) if (mask >> i & 1) v.push_back(cc.conf.universe[i]); return v; }
+    CObs finishCase(const S &op, const Feat &f)
+    {
+        CObs o = runClient(cc, f);
+        corr(op, o.str());
+        if (clientOracle(cc, f, o, op)) oraclePass()++;
+        stat("client_cases");
+        stat("client_obs:" + (o.actions.empty() ? S("nothing") : o.actions[0].substr(0, o.actions[0].find(' '))));
+        return o;
+    }
+    CObs maskCase(unsigned mask, bool legacy, bool bind, std::optional<unsigned> m2, std::optional<unsigned> fm)
+    {
+        Feat f; f.mechanisms = pick(mask); f.legacy = legacy; f.bind = bind;
+        if (m2) f.sasl2 = pick(*m2);
+        if (m2 && fm) f.fast = pick(*fm);
+        S op = "c " + hexmask(mask) + " " + (legacy ? "1" : "0") + " " + (bind ? "1" : "0") + " " + (m2 ? hexmask(*m2) : S("!")) + " " + (m2 && fm ? hexmask(*fm) : S("!"));
+        return finishCase(op, f);
+    }
+    CObs listCase(const Feat &f)
+    {
+        S op = "k " + encList(f.mechanisms) + " " + (f.legacy ? "1" : "0") + " " + (f.bind ? "1" : "0") + " " + (f.sasl2 ? encList(*f.sasl2) : S("!")) + " " + (f.sasl2 && f.fast ? encList(*f.fast) : S("!"));
+        Feat g = f; if (!g.sasl2) g.fast.reset();
+        return finishCase(op, g);
+    }
+};
+
+static const SV UC6 = { "PLAIN", "SCRAM-SHA-1", "ANONYMOUS", "HT-SHA-256-NONE", "EXTERNAL", "SCRAM-SHA-1-PLUS" };
+static const SV UC8 = { "PLAIN", "SCRAM-SHA-1", "ANONYMOUS", "HT-SHA-256-NONE", "EXTERNAL", "SCRAM-SHA-1-PLUS", "DIGEST-MD5", "X-OAUTH2" };
+
+static std::vector<CConf> clientConfs(const SV &universe)
+{
+    std::vector<CConf> v;
+    std::vector<Dis> dis = { { true, {} }, { false, {} }, { false, { "PLAIN", "SCRAM-SHA-1", "DIGEST-MD5", "ANONYMOUS" } } };
+    SV prefs = { "", "PLAIN", "SCRAM-SHA-1" };
+    Creds pw0; pw0.pw = 1;
+    std::vector<Creds> creds = { mkCreds(true, -1, nullptr, false), mkCreds(false, -1, nullptr, false), pw0, mkCreds(true, 0, "None", false) };
+    for (int flags = 0; flags < 8; flags++) for (auto &d : dis) for (auto &p : prefs) for (auto &cr : creds) for (int fastCfg = 0; fastCfg < 2; fastCfg++) {
+        CConf c; c.useSasl2 = flags & 4; c.useSasl = flags & 2; c.useNonSasl = flags & 1;
+        c.conf.defaultDisabled = d.def; c.conf.disabled = d.list; c.conf.preferred = p; c.conf.creds = cr; c.conf.universe = universe;
+        c.conf.useFast = fastCfg; c.conf.ua = true;
+        if (fastCfg == 0 && cr.htHash < 0 && !p.empty()) continue;   // thin out: FAST setting only matters with a token
+        v.push_back(c);
+    }
+    return v;
+}
+
+// every subset of the universe as <mechanisms/> x legacy x bind x SASL 2 {absent, same names (HT names in <fast/>), only names the
+// client does not implement}
+static void clientSubsets(const CConf &cc)
+{
+    CGroup g(cc);
+    unsigned n = unsigned(cc.conf.universe.size()), htBits = 0, unknownBits = 0;
+    for (unsigned i = 0; i < n; i++) {
+        if (cc.conf.universe[i].rfind("HT-", 0) == 0) htBits |= 1u << i;
+        if (strength(cc.conf.universe[i]) == -2) unknownBits |= 1u << i;
+    }
+    for (unsigned mask = 0; mask < (1u << n); mask++) for (int legacy = 0; legacy < 2; legacy++) for (int bind = 0; bind < 2; bind++) {
+        g.maskCase(mask, legacy, bind, std::nullopt, std::nullopt);
+        g.maskCase(mask, legacy, bind, mask & ~htBits, mask & htBits);
+        if ((mask & 7) == 0) g.maskCase(mask, legacy, bind, unknownBits, std::nullopt);
+    }
+    stat("client_exhaustive_offers", 1ll << n);
+}
+
+static void clientRandom(Rng &rng, int nConfigs, int perConfig)
+{
+    SV ns = nameSpace();
+    ns.erase(std::remove(ns.begin(), ns.end(), S("")), ns.end());   // an empty <mechanism/> is a parsing matter, not this property's
+    auto pick = [&]() -> S { uint32_t r = rng.below(100); if (r < 45) return ns[rng.below(10)]; if (r < 60) return ns[10 + rng.below(28)]; return ns[rng.below(ns.size())]; };
+    for (int i = 0; i < nConfigs; i++) {
+        CConf c;
+        c.useSasl2 = rng.below(3) != 0; c.useSasl = rng.below(4) != 0; c.useNonSasl = rng.below(3) != 0;
+        c.conf.useFast = rng.below(4) != 0; c.conf.ua = rng.below(4) != 0;
+        c.conf.defaultDisabled = rng.below(2) == 0;
+        if (!c.conf.defaultDisabled) { int k = rng.below(4); for (int j = 0; j < k; j++) c.conf.disabled.push_back(pick()); }
+        if (rng.below(3) == 0) c.conf.preferred = pick();
+        auto st = [&](uint32_t pctSet) -> int { return rng.below(100) < pctSet ? 2 : int(rng.below(2)); };
+        c.conf.creds.pw = st(50);
+        if (rng.below(3) == 0) { c.conf.creds.htHash = rng.below(N_HASH); c.conf.creds.htCb = "None"; }
+        c.conf.creds.goo = st(20);
+        S tok = tokenName(c.conf.creds);
+        CGroup g(c);
+        for (int j = 0; j < perConfig; j++) {
+            Feat f;
+            bool unknownOnly = rng.below(3) == 0;   // the interesting corner: only names the client does not implement
+            auto name = [&]() -> S { if (unknownOnly) { S n; do n = ns[rng.below(ns.size())]; while (strength(n) != -2); return n; } return pick(); };
+            int len = rng.below(5);
+            for (int k = 0; k < len; k++) f.mechanisms.push_back(name());
+            f.legacy = rng.coin(); f.bind = rng.coin();
+            if (rng.below(3) == 0) {
+                f.sasl2 = SV(); int l2 = rng.below(4);
+                for (int k = 0; k < l2; k++) f.sasl2->push_back(name());
+                if (rng.coin()) { f.fast = SV(); int fl = rng.below(3); for (int k = 0; k < fl; k++) f.fast->push_back(!tok.empty() && rng.coin() ? tok : ns[10 + rng.below(28)]); }
+            }
+            CObs o = g.listCase(f);
+            if (i < 2 && j < 2) sample(cconfLine(c) + " ; " + featuresXml(f).toStdString() + " => " + o.str());
+        }
+    }
+    stat("client_random_configs", nConfigs);
+}
+
+static void clientCorpus()
+{
+    // initially missed seeded change C05_d2: an offer made only of names the client does not implement must still end in a
+    // mechanism mismatch, not in XEP-0078 authentication or an unauthenticated bind
+    CConf c; c.conf.creds = mkCreds(true, -1, nullptr, false);
+    CGroup g(c);
+    Feat f; f.mechanisms = { "GSSAPI", "EXTERNAL" }; f.legacy = true;
+    CObs o = g.listCase(f);
+    sample(cconfLine(c) + " ; " + featuresXml(f).toStdString() + " => " + o.str());
+    f.mechanisms = { "SCRAM-SHA-1-PLUS" }; f.legacy = false; f.bind = true; g.listCase(f);
+    f.mechanisms = { "PLAIN" }; f.legacy = true; f.bind = true; g.listCase(f);              // disabled by default: mismatch
+    f.mechanisms = { "PLAIN", "SCRAM-SHA-1" }; g.listCase(f);                                // control
+    f.mechanisms = {}; g.listCase(f);                                                        // no SASL offered at all: legacy auth
+    f.sasl2 = SV { "GSSAPI" }; f.mechanisms = { "SCRAM-SHA-1" }; g.listCase(f);              // SASL 2 negotiated, nothing permitted in it
+}
+
 int main(int argc, char **argv)
 {
     QCoreApplication app(argc, argv);
@@ -542,6 +879,7 @@ int main(int argc, char **argv)
     Rng rng(a.seed);
 
     corpus();
+    clientCorpus();
 
     // exhaustive part
     auto confs12 = allConfs(U12);
@@ -570,6 +908,10 @@ int main(int argc, char **argv)
 
     orderings(rng, confs12, thorough ? 2000 : 300, 20);
     randomPart(rng, thorough ? 20000 : 2500, 16);
+
+    // client level
+    for (auto &cc : clientConfs(thorough ? UC8 : UC6)) clientSubsets(cc);
+    clientRandom(rng, thorough ? 6000 : 1200, 12);
 
     finish();
     return 0;
